@@ -38,8 +38,9 @@ func (rst *RstStream) Error() error {
 }
 
 func (rst *RstStream) Deserialize(fr *FrameHeader) error {
-	if len(fr.payload) < 4 {
-		return ErrMissingBytes
+	if len(fr.payload) != 4 {
+		// A RST_STREAM frame is exactly four octets (RFC 7540 6.4).
+		return NewGoAwayError(FrameSizeError, "invalid rst_stream payload")
 	}
 
 	rst.code = ErrorCode(http2utils.BytesToUint32(fr.payload))
